@@ -18,6 +18,7 @@ structure Live (c : Client) : Prop where
   succ : c.cur.success = c.cur.subs
   nodup : c.accts.Nodup
   chaos : c.chaos = false
+  fo : c.failOpen = 0
 
 /-- what a successful (possibly nested-reconnecting) step guarantees -/
 structure Post (c c' : Client) (extra : List Nat) : Prop where
@@ -38,18 +39,19 @@ theorem setCur_fields (c : Client) (f : Stream → Stream) :
     (c.setCur f).accts = c.accts ∧ (c.setCur f).beh = c.beh ∧
     (c.setCur f).refuse = c.refuse ∧ (c.setCur f).attempts = c.attempts ∧ (c.setCur f).chaos = c.chaos ∧
     (c.setCur f).streams.length = c.streams.length ∧
-    (c.setCur f).isOpen = c.isOpen ∧ (c.setCur f).mainErrs = c.mainErrs ∧ (c.setCur f).handlerRes = c.handlerRes := by
+    (c.setCur f).isOpen = c.isOpen ∧ (c.setCur f).mainErrs = c.mainErrs ∧ (c.setCur f).handlerRes = c.handlerRes ∧
+    (c.setCur f).failOpen = c.failOpen := by
   unfold Client.setCur; split <;> simp_all
 
 theorem closeStream_fields (c : Client) :
     c.closeStream.accts = c.accts ∧ c.closeStream.beh = c.beh ∧ c.closeStream.refuse = c.refuse ∧
     c.closeStream.attempts = c.attempts ∧ c.closeStream.chaos = c.chaos ∧
     c.closeStream.streams.length = c.streams.length ∧ c.closeStream.mainErrs = c.mainErrs ∧
-    c.closeStream.handlerRes = c.handlerRes := by
+    c.closeStream.handlerRes = c.handlerRes ∧ c.closeStream.failOpen = c.failOpen := by
   unfold Client.closeStream
   split
-  · obtain ⟨h1, h2, h3, h4, h5, h6, _, h8, h9⟩ := setCur_fields c (fun s => { s with alive := false })
-    exact ⟨h1, h2, h3, h4, h5, h6, h8, h9⟩
+  · obtain ⟨h1, h2, h3, h4, h5, h6, _, h8, h9, h10⟩ := setCur_fields c (fun s => { s with alive := false })
+    exact ⟨h1, h2, h3, h4, h5, h6, h8, h9, h10⟩
   · simp
 
 /-- the re-subscription loop, given the handshake statement at the same depth -/
@@ -82,22 +84,26 @@ theorem loop_of_P (pick : List Nat → List Nat) (n : Nat) (hP : PHs pick n) :
 /-- `HandleServerShutdown`, given the handshake statement at the same depth: whatever state the old stream is in, it
 ends with a live stream carrying every account of the map exactly once -/
 theorem hss_of_P (pick : List Nat → List Nat) (hpick : ∀ l, List.Perm (pick l) l) (n : Nat) (hP : PHs pick n)
-    (c : Client) (hnd : c.accts.Nodup) (hch : c.chaos = false) (ht : TransportOnly c.beh)
+    (c : Client) (hnd : c.accts.Nodup) (hch : c.chaos = false) (hfo : c.failOpen = 0) (ht : TransportOnly c.beh)
     (hlen : c.beh.length ≤ n) :
     ∃ c', c.handleShutdown Variant.fixed pick (hsF pick n) = (c', .ok) ∧ Live c' ∧
       List.Perm c'.accts c.accts ∧ TransportOnly c'.beh ∧ c'.beh.length ≤ c.beh.length ∧
       c.streams.length < c'.streams.length := by
-  obtain ⟨ha, hb, _, _, hc, hsl, _, _⟩ := closeStream_fields c
+  obtain ⟨ha, hb, _, _, hc, hsl, _, _, hf⟩ := closeStream_fields c
+  have hf0 : c.closeStream.failOpen = 0 := by rw [hf]; exact hfo
   let c0 : Client := { c.closeStream.connectStream with accts := [] }
   have hl0 : Live c0 := by
-    refine ⟨rfl, ?_, ?_, ?_, ?_, ?_⟩ <;> simp [c0, Client.connectStream, Client.cur, hc, hch]
-  have hbeh0 : c0.beh = c.beh := by simp [c0, Client.connectStream, hb]
+    refine ⟨?_, ?_, ?_, ?_, ?_, ?_, ?_⟩ <;> simp [c0, Client.connectStream, Client.cur, hc, hch, hf0]
+  have hbeh0 : c0.beh = c.beh := by simp [c0, Client.connectStream, hb, hf0]
   have hord : (pick c.accts).Nodup := (hpick _).nodup_iff.mpr hnd
   obtain ⟨c', h, p⟩ := loop_of_P pick n hP (pick c.accts) c0 hl0 hord (by simp [c0])
     (by rw [hbeh0]; exact ht) (by rw [hbeh0]; exact hlen)
   refine ⟨c', ?_, p.live, ?_, p.tr, by simpa [hbeh0] using p.len, ?_⟩
-  · have e : (c.closeStream.connectStream).accts = c.accts := by simp [Client.connectStream, ha]
-    simp only [Client.handleShutdown, e]
+  · have e : (c.closeStream.connectStream).accts = c.accts := by simp [Client.connectStream, ha, hf0]
+    have eo : ¬ ((!(c.closeStream.connectStream).isOpen) = true) := by simp [Client.connectStream, hf0]
+    unfold Client.handleShutdown
+    dsimp only
+    rw [if_neg eo, e]
     have : ({ c.closeStream.connectStream with accts := [] } : Client).resubLoop Variant.fixed (hsF pick n)
         (pick c.accts) = (c', .ok) := h
     rw [this]
@@ -105,7 +111,7 @@ theorem hss_of_P (pick : List Nat → List Nat) (hpick : ∀ l, List.Perm (pick 
     simp only [c0, List.nil_append] at this
     exact this.trans (hpick _)
   · have := p.str
-    simp only [c0, Client.connectStream, List.length_cons, hsl] at this
+    simp only [c0, Client.connectStream, hf0, if_true, List.length_cons, hsl] at this
     omega
 
 theorem handlerLoop_ok (v : Variant) (hsd : Client → Client × HsRes) (fuel : Nat) (c c' : Client)
@@ -148,7 +154,7 @@ theorem hs_ok_post (c : Client) (a : Nat) (hl : Live c) (ha : a ∉ c.accts) (ht
   have hp : List.Perm s.subs c.accts := by simpa [Client.cur, hs] using hl.perm
   have hsu : s.success = s.subs := by simpa [Client.cur, hs] using hl.succ
   have hal : s.alive = true := by simpa [Client.cur, hs] using hl.alive
-  refine ⟨⟨?_, ?_, ?_, ?_, ?_, ?_⟩, ?_, ?_, ?_, ?_⟩
+  refine ⟨⟨?_, ?_, ?_, ?_, ?_, ?_, ?_⟩, ?_, ?_, ?_, ?_⟩
   · simp [Client.setCur, hs, hl.isOpen]
   · simp [Client.setCur, hs, Client.cur, hal]
   · simp only [Client.setCur, hs, Client.cur, List.headD_cons]; exact List.Perm.append_right _ hp
@@ -157,6 +163,7 @@ theorem hs_ok_post (c : Client) (a : Nat) (hl : Live c) (ha : a ∉ c.accts) (ht
     exact List.nodup_append.mpr ⟨hl.nodup, by simp, by
       intro x hx y hy; simp at hy; subst hy; intro e; subst e; exact ha hx⟩
   · simp [Client.setCur, hs, hl.chaos]
+  · simp [Client.setCur, hs, hl.fo]
   · simp [Client.setCur, hs]
   · simp only [Client.setCur, hs]
     intro b hb; exact ht b (List.mem_of_mem_tail hb)
@@ -179,9 +186,9 @@ theorem PHs_all (pick : List Nat → List Nat) (hpick : ∀ l, List.Perm (pick l
     intro c a hl ha ht hlen
     -- the state handed to the inline reconnect in the three fault cases
     have inl : ∀ c2 : Client, c2.accts = c.accts ++ [a] → c2.beh = c.beh.tail → c2.chaos = false →
-        c.streams.length ≤ c2.streams.length → c.beh ≠ [] →
+        c2.failOpen = 0 → c.streams.length ≤ c2.streams.length → c.beh ≠ [] →
         ∃ c', c2.handleShutdown Variant.fixed pick (hsF pick m) = (c', .ok) ∧ Post c c' [a] := by
-      intro c2 h1 h2 h3 h4 hne
+      intro c2 h1 h2 h3 hf2 h4 hne
       have hnd2 : c2.accts.Nodup := by
         rw [h1]
         exact List.nodup_append.mpr ⟨hl.nodup, by simp, by
@@ -193,7 +200,7 @@ theorem PHs_all (pick : List Nat → List Nat) (hpick : ∀ l, List.Perm (pick l
         cases hb : c.beh with
         | nil => exact absurd hb hne
         | cons b t => simp [hb] at hlen ⊢; omega
-      obtain ⟨c', h, hl', hp', ht', hlen', hstr'⟩ := hss_of_P pick hpick m ih c2 hnd2 h3 ht2 hlen2
+      obtain ⟨c', h, hl', hp', ht', hlen', hstr'⟩ := hss_of_P pick hpick m ih c2 hnd2 h3 hf2 ht2 hlen2
       refine ⟨c', h, ⟨hl', by rw [← h1]; exact hp', ht', ?_, by omega⟩⟩
       rw [h2] at hlen'
       exact le_trans hlen' (by simp)
@@ -207,24 +214,24 @@ theorem PHs_all (pick : List Nat → List Nat) (hpick : ∀ l, List.Perm (pick l
       simp only [List.headD_cons, List.tail_cons]
       rcases hbt with rfl | rfl | rfl | rfl
       · exact ⟨_, rfl, by simpa [hb] using hs_ok_post c a hl ha ht⟩
-      · obtain ⟨h1, h2, _, _, h5, h6, _⟩ :=
+      · obtain ⟨h1, h2, _, _, h5, h6, _, _, _, h10⟩ :=
           setCur_fields ({ c with accts := c.accts ++ [a], beh := t } : Client) (fun s => { s with alive := false })
         obtain ⟨c', h, p⟩ := inl (({ c with accts := c.accts ++ [a], beh := t } : Client).failStream)
           h1 (by rw [Client.failStream, h2, hb]; rfl) (by rw [Client.failStream, h5]; exact hl.chaos)
-          (by rw [Client.failStream, h6]) hne
+          (by rw [Client.failStream, h10]; exact hl.fo) (by rw [Client.failStream, h6]) hne
         exact ⟨c', by simpa [Variant.fixed, hsF] using h, p⟩
-      · obtain ⟨h1, h2, _, _, h5, h6, _⟩ :=
+      · obtain ⟨h1, h2, _, _, h5, h6, _, _, _, h10⟩ :=
           setCur_fields ({ c with accts := c.accts ++ [a], beh := t } : Client)
             (fun s => { s with subs := s.subs ++ [a], alive := false })
         obtain ⟨c', h, p⟩ := inl (({ c with accts := c.accts ++ [a], beh := t } : Client).setCur
             fun s => { s with subs := s.subs ++ [a], alive := false })
-          h1 (by rw [h2, hb]; rfl) (by rw [h5]; exact hl.chaos) (by rw [h6]) hne
+          h1 (by rw [h2, hb]; rfl) (by rw [h5]; exact hl.chaos) (by rw [h10]; exact hl.fo) (by rw [h6]) hne
         exact ⟨c', by simpa [Variant.fixed, hsF] using h, p⟩
-      · obtain ⟨h1, h2, _, _, h5, h6, _⟩ :=
+      · obtain ⟨h1, h2, _, _, h5, h6, _, _, _, h10⟩ :=
           setCur_fields ({ c with accts := c.accts ++ [a], beh := t } : Client) (fun s => { s with alive := false })
         obtain ⟨c', h, p⟩ := inl (({ c with accts := c.accts ++ [a], beh := t } : Client).failStream)
           h1 (by rw [Client.failStream, h2, hb]; rfl) (by rw [Client.failStream, h5]; exact hl.chaos)
-          (by rw [Client.failStream, h6]) hne
+          (by rw [Client.failStream, h10]; exact hl.fo) (by rw [Client.failStream, h6]) hne
         exact ⟨c', h, p⟩
 
 end Pool.C18
